@@ -462,7 +462,53 @@ func (t *FnTrans) staticFieldComp(a *ssa.FieldAddr) (string, types.Type, bool) {
 	return c, ft, true
 }
 
+// noteVia records that component comp is written in loop l through base value v (nil: unknown).
+func (t *FnTrans) noteVia(l *loopInfo, comp string, v ssa.Value) {
+	if v == nil {
+		l.viaBad[comp] = true
+		return
+	}
+	if in, ok := v.(ssa.Instruction); ok && in.Block() != nil && l.body[in.Block()] {
+		l.viaBad[comp] = true // defined inside the loop: not loop-invariant
+		return
+	}
+	for _, o := range l.via[comp] {
+		if o == v {
+			return
+		}
+	}
+	l.via[comp] = append(l.via[comp], v)
+}
+
 func (t *FnTrans) instrWrites(in ssa.Instruction, l *loopInfo) {
+	t.instrWritesRaw(in, l)
+	// which components are written only through loop-invariant bases (for the automatic loop frame)
+	if st, ok := in.(*ssa.Store); ok {
+		switch a := st.Addr.(type) {
+		case *ssa.IndexAddr:
+			if u, ok := t.resolve(a.X.Type()).Underlying().(*types.Slice); ok {
+				t.noteVia(l, "E."+mangle(t.sortOf(u.Elem())), a.X)
+				return
+			}
+		case *ssa.FieldAddr:
+			if _, isFA := a.X.(*ssa.FieldAddr); !isFA {
+				if comp, ft, ok := t.staticFieldComp(a); ok {
+					if _, isS := t.resolve(ft).Underlying().(*types.Struct); !isS {
+						t.noteVia(l, comp, a.X)
+						return
+					}
+				}
+			}
+		}
+	}
+	tmp := &loopInfo{writes: map[string]bool{}, via: map[string][]ssa.Value{}, viaBad: map[string]bool{}, body: l.body}
+	t.instrWritesRaw(in, tmp)
+	for c := range tmp.writes {
+		l.viaBad[c] = true
+	}
+}
+
+func (t *FnTrans) instrWritesRaw(in ssa.Instruction, l *loopInfo) {
 	switch x := in.(type) {
 	case *ssa.Store:
 		t.staticAddrComps(x.Addr, l)
@@ -541,6 +587,20 @@ func (t *FnTrans) callWrites(c *ssa.CallCommon, l *loopInfo) {
 		key = fnKey(callee)
 	} else if p, ok := c.Value.(*ssa.Parameter); ok && t.ct != nil && t.ct.Callback[p.Name()] != nil {
 		ct = t.ct.Callback[p.Name()]
+	} else if p, ok := c.Value.(*ssa.Phi); ok && t.ct != nil && p.Comment != "" && t.ct.Callback[p.Comment] != nil {
+		ct = t.ct.Callback[p.Comment]
+	} else if u, ok := c.Value.(*ssa.UnOp); ok && t.ct != nil {
+		if fv, ok := u.X.(*ssa.FreeVar); ok && t.ct.Callback[fv.Name()] != nil {
+			ct = t.ct.Callback[fv.Name()]
+		} else if fa, ok := u.X.(*ssa.FieldAddr); ok {
+			if pt, ok := t.resolve(fa.X.Type()).Underlying().(*types.Pointer); ok {
+				if st, ok := t.resolve(pt.Elem()).Underlying().(*types.Struct); ok {
+					if ts := t.eng.specs.Types[typeName(originOf(t.resolve(pt.Elem())))]; ts != nil {
+						ct = ts.Callbacks[st.Field(fa.Field).Name()]
+					}
+				}
+			}
+		}
 	}
 	if ct == nil && isIntrinsicKey(key) {
 		if !t.intrinsicWrites(key, c, l) {
@@ -556,6 +616,21 @@ func (t *FnTrans) callWrites(c *ssa.CallCommon, l *loopInfo) {
 		return
 	}
 	t.wAlloc(l)
+	for _, g := range ct.Ghost {
+		// ghost updates performed on behalf of callback contracts
+		if strings.HasPrefix(g.Text, "assert ") {
+			continue
+		}
+		if i := strings.Index(g.Text, "="); i > 0 {
+			name := strings.TrimSpace(g.Text[:i])
+			pk := t.fn.Pkg.Pkg.Path()
+			if gs, ok := t.eng.specs.Ghosts[pk+"."+name]; ok {
+				t.w(l, "GG."+pk+"."+name, gs)
+			} else {
+				l.all = true
+			}
+		}
+	}
 	if len(ct.Modifies) == 0 {
 		return
 	}
@@ -679,6 +754,29 @@ func (t *FnTrans) staticMod(x *Expr, ptypes map[string]types.Type, pkg *types.Pa
 			return false
 		}
 		t.wElem(l, u.Elem())
+		return true
+	case x.Op == "call" && (x.Name == "cells" || x.Name == "allelems"):
+		var T types.Type
+		a := x.Args[0]
+		depth := 0
+		for a.Op == "un" && a.Name == "*" {
+			a = a.Args[0]
+			depth++
+		}
+		if a.Op == "id" {
+			T = lookupT(a.Name)
+		}
+		if T == nil {
+			return false
+		}
+		for ; depth > 0; depth-- {
+			T = types.NewPointer(T)
+		}
+		if x.Name == "cells" {
+			t.wCell(l, T)
+		} else {
+			t.wElem(l, T)
+		}
 		return true
 	case x.Op == "call" && x.Name == "map":
 		T := t.staticType(x.Args[0], ptypes)
